@@ -42,6 +42,9 @@ func genC04(seed uint64, tier string) C04Cfg {
 	for i := 1; i <= n; i++ {
 		ids = append(ids, uint16(i))
 	}
+	if prng.Derive(seed, "wide-ids").Bool(0.25) {
+		ids = wideIDs(prng.Derive(seed, "wide-ids/draw"), n)
+	}
 	c := C04Cfg{N: n, T: r.Range(1, n), Late: -1, Topic: fmt.Sprintf("topic-%d", r.Intn(1000))}
 	c.Deploy = DeployCfg{IDs: ids, Silent: r.Bool(0.4), Threshold: r.Range(1, n-1), Backend: "scripted"}
 	c.Deploy.SP = genScriptedParams(r, 4)
